@@ -555,7 +555,7 @@ def run(ck):
             else:
                 r = ck.rng("e1", layout)
                 masks = sorted(set([0, (1 << npts) - 1] +
-                                   [r.getrandbits(npts) for _ in range(40 if layout == (1, 1, 1) else 14)]))
+                                   [r.getrandbits(npts) for _ in range(28 if layout == (1, 1, 1) else 10)]))
             for mask in masks:
                 modes = MODES if (ck.tier == "thorough" and npts <= 10) else (MODES[(mask + ck.seed) % 3],)
                 for mode in modes:
@@ -625,7 +625,7 @@ def run(ck):
                         continue
                     for mode in MODES:
                         e7n += 1
-                        if ck.tier == "quick" and which != "marker" and (e7n + ck.seed) % 2:
+                        if ck.tier == "quick" and (e7n + ck.seed) % 2 and (which != "marker" or mode is None):
                             continue
                         if not mine():
                             continue
